@@ -30,6 +30,10 @@ LONGROW = [
     [("F", 12, 1), ("F", 1, 1)],
     [("F", 12, 1), ("G", 2, 0), ("F", 12, -1)],
     [("F", 3, 1), ("G", 1, 0), ("F", 12, 1), ("G", 1, 0), ("F", 3, 1)],
+    # contigs of unknown orientation (AGP "?", strand 0)
+    [("F", 12, 0)],
+    [("F", 5, 0), ("G", 1, 0), ("F", 3, 1)],
+    [("F", 3, -1), ("F", 5, 0)],
 ]
 
 OPS = (
@@ -51,13 +55,17 @@ def build(spec):
     return Scaffold("s", rows)
 
 
-def base_map_rows(rows):
+def base_map_rows(rows, zero=1):
+    """
+    zero: how the bases of a contig of unknown orientation (strand 0) are laid along the scaffold.  The statement cannot
+    say which end of such a contig a cut removes, so the invariant accepts either reading (consistently).
+    """
     out = []
     for r in rows:
         if isinstance(r, Gap):
             out.extend([("gap", r.gap_type)] * r.length)
-        elif r.strand == -1:
-            out.extend((r.name, c, -1) for c in range(r.end, r.start - 1, -1))
+        elif r.strand == -1 or (r.strand == 0 and zero == -1):
+            out.extend((r.name, c, r.strand) for c in range(r.end, r.start - 1, -1))
         else:
             out.extend((r.name, c, r.strand) for c in range(r.start, r.end + 1))
     return out
@@ -146,7 +154,7 @@ class C18(Check):
     def explore_scaffold(self, spec, ctx):
         scffld = build(spec)
         ia = IndexedAssembly("t", scaffolds=[scffld])
-        src_map = base_map_rows(scffld.rows)
+        src_map = (base_map_rows(scffld.rows, 1), base_map_rows(scffld.rows, -1))
         ln = scffld.length
         for a in range(1, ln + 3):
             for b in range(a, ln + 3):
@@ -275,10 +283,10 @@ class C18(Check):
             ctx.violation("length-property", case, f"length={res.length} sum={total}")
         if not rows:
             return
-        if res.start < 1 or res.end > len(src_map):
-            ctx.violation("span-outside-scaffold", case, f"{res.start}-{res.end} L={len(src_map)}")
+        if res.start < 1 or res.end > len(src_map[0]):
+            ctx.violation("span-outside-scaffold", case, f"{res.start}-{res.end} L={len(src_map[0])}")
             return
-        if base_map_rows(rows) != src_map[res.start - 1 : res.end]:
+        if base_map_rows(rows, 1) != src_map[0][res.start - 1 : res.end] and base_map_rows(rows, -1) != src_map[1][res.start - 1 : res.end]:
             ctx.violation("rows-not-source-run", case, f"start={res.start} end={res.end} rows={rows!r}")
             return
         if isinstance(rows[0], Gap) or isinstance(rows[-1], Gap):
@@ -332,4 +340,4 @@ class C18(Check):
 
 CHECK = C18()
 # scope added in later rounds, kept in the evidence text
-CHECK.rule += ' Scaffolds that list the same contig interval twice (rows equal by value, distinct objects). Long-row family: nine scaffolds with rows of 7 / 12 bases (a short bait overhangs by more than every error length on both sides).'
+CHECK.rule += ' Scaffolds that list the same contig interval twice (rows equal by value, distinct objects). Long-row family: twelve scaffolds with rows of 7 / 12 bases and rows of unknown orientation (strand 0) (a short bait overhangs by more than every error length on both sides).'
